@@ -68,6 +68,11 @@ def coerce(eng, v, sort):
         return coerce(eng, v, sort.inner)
     if isinstance(sort, Tup) and isinstance(v.sort, Tup):
         return SV(sort, tuple(coerce(eng, x, s) for x, s in zip(v.t, sort.items)))
+    if isinstance(v.sort, Opt) and not isinstance(sort, Opt):
+        isn, inner = v.t
+        if not eng.spec_mode and eng.path is not None and eng.path.feasible_with(zb(isn)):
+            raise EngineLimit("a possibly-None value flows into a location declared %s" % sort)
+        return coerce(eng, inner, sort)
     return v
 
 
@@ -271,7 +276,7 @@ def list_slice(eng, lv, lo, hi):
     lo_c = z3.If(lo_t > n, n, lo_t)
     hi_c = z3.If(hi_t > n, n, hi_t)
     length = z3.If(hi_c > lo_c, hi_c - lo_c, 0)
-    j = z3.Int(fresh_name("sl"))
+    j = bvar("sl")
     arrs = [z3.Lambda([j], z3.Select(a, j + lo_c)) for a in eng.list_items(lv.t, elem)]
     r = eng.new_ref()
     eng.list_set_all(r, elem, length, arrs)
@@ -336,7 +341,7 @@ def contains(eng, container, x, line):
         return bm.or_(*[eng.eq(x, y) for y in container.t])
     if isinstance(s, ListOf):
         n = eng.list_len(container.t, s.elem)
-        i = z3.Int(fresh_name("mi"))
+        i = bvar("mi")
         e = eng.eq(eng.list_get(container.t, s.elem, i), coerce(eng, x, s.elem))
         return z3.Exists([i], z3.And(0 <= i, i < n, zb(e)))
     if isinstance(s, MapOf):
@@ -370,7 +375,7 @@ def contains(eng, container, x, line):
 def grid_member(eng, g, x):
     """x in {lo + k*step | 0 <= k <= n} for a ground-checked constant ladder"""
     x = eng.deref(x, "TypeError")
-    k = z3.Int(fresh_name("gk"))
+    k = bvar("gk")
     xt = zreal(x.t)
     body = z3.And(k >= 0, k <= g.n, xt == zreal(g.lo) + z3.ToReal(k) * zreal(g.step))
     return z3.Exists([k], body)
@@ -411,7 +416,7 @@ def to_chars(v):
 
 def chars_concat(eng, parts):
     parts = [to_chars(p) for p in parts]
-    j = z3.Int(fresh_name("cc"))
+    j = bvar("cc")
     total = 0
     expr = None
     offs = []
@@ -441,7 +446,7 @@ def chars_slice(eng, base, lo, hi):
     lo_c = z3.If(lo_t > lz, lz, lo_t)
     hi_c = z3.If(hi_t > lz, lz, hi_t)
     length = z3.If(hi_c > lo_c, hi_c - lo_c, 0)
-    j = z3.Int(fresh_name("cs"))
+    j = bvar("cs")
     return SV(CHARS, (z3.simplify(length), z3.Lambda([j], z3.Select(a, j + lo_c))))
 
 
@@ -479,7 +484,7 @@ def list_concat(eng, a, b):
         a = coerce(eng, a, ListOf(elem))
     na = eng.list_len(a.t, elem)
     nb = eng.list_len(b.t, elem)
-    j = z3.Int(fresh_name("lc"))
+    j = bvar("lc")
     arrs = [z3.Lambda([j], z3.If(j < na, z3.Select(x, j), z3.Select(y, j - na))) for x, y in zip(eng.list_items(a.t, elem), eng.list_items(b.t, elem))]
     r = eng.new_ref()
     eng.list_set_all(r, elem, na + nb, arrs)
@@ -631,7 +636,7 @@ def symbolic_comprehension(eng, node, g, lv, fr, kind):
     bm = _bm()
     elem = lv.sort.elem
     n = eng.list_len(lv.t, elem)
-    i = z3.Int(fresh_name("ci"))
+    i = bvar("ci")
     fr2 = E.Frame(fr.module, fr.cls, fr.func, dict(fr.locals))
     saved_mode = eng.spec_mode
     eng.spec_mode = True  # element expressions must be pure (no forking)
@@ -652,20 +657,30 @@ def symbolic_comprehension(eng, node, g, lv, fr, kind):
         arrs = [z3.Lambda([i], c) for c in comps]
         eng.list_set_all(r, rs, n, arrs)
         return SV(ListOf(rs), r)
-    # filtered: axiomatise
-    m = z3.Int(fresh_name("flen"))
-    f = z3.Function(fresh_name("fidx"), z3.IntSort(), z3.IntSort())
-    ginv = z3.Function(fresh_name("finv"), z3.IntSort(), z3.IntSort())
-    j = z3.Int(fresh_name("cj"))
-    j2 = z3.Int(fresh_name("cj2"))
-    arrs = [z3.Lambda([j], z3.substitute(c, (i, f(j)))) for c in comps]
-    eng.list_set_all(r, rs, m, arrs)
+    # filtered: the result is a deterministic function of (condition array, source length):
+    #   FLEN(c, n), FIDX(c, n, j), FINV(c, n, i)  - so the same filter written twice yields the same terms
     condz = zb(cond)
+    carr = z3.simplify(z3.Lambda([i], condz))
+    bs = z3.ArraySort(z3.IntSort(), z3.BoolSort())
+    FLEN = z3.Function("FLEN", bs, z3.IntSort(), z3.IntSort())
+    FIDX = z3.Function("FIDX", bs, z3.IntSort(), z3.IntSort(), z3.IntSort())
+    FINV = z3.Function("FINV", bs, z3.IntSort(), z3.IntSort(), z3.IntSort())
+    m = FLEN(carr, n)
+    f = lambda j_: FIDX(carr, n, j_)
+    ginv = lambda i_: FINV(carr, n, i_)
+    j = bvar("cj")
+    j2 = bvar("cj2")
+    arrs = [z3.simplify(z3.Lambda([j], z3.substitute(c, (i, f(j))))) for c in comps]
+    eng.list_set_all(r, rs, m, arrs)
     p = eng.path
-    p.assume(z3.And(m >= 0, m <= n), check=False)
-    p.assume(z3.ForAll([j], z3.Implies(z3.And(0 <= j, j < m), z3.And(0 <= f(j), f(j) < n, z3.substitute(condz, (i, f(j)))))), check=False)
-    p.assume(z3.ForAll([j, j2], z3.Implies(z3.And(0 <= j, j < j2, j2 < m), f(j) < f(j2))), check=False)
-    p.assume(z3.ForAll([i], z3.Implies(z3.And(0 <= i, i < n, condz), z3.And(0 <= ginv(i), ginv(i) < m, f(ginv(i)) == i))), check=False)
+    done = p.ghost.setdefault("filter_axioms", set())
+    key = (carr.get_id(), zr(n).get_id())
+    if key not in done:
+        done.add(key)
+        p.assume(z3.And(m >= 0, m <= n), check=False)
+        p.assume(z3.ForAll([j], z3.Implies(z3.And(0 <= j, j < m), z3.And(0 <= f(j), f(j) < n, z3.Select(carr, f(j))))), check=False)
+        p.assume(z3.ForAll([j, j2], z3.Implies(z3.And(0 <= j, j < j2, j2 < m), f(j) < f(j2))), check=False)
+        p.assume(z3.ForAll([i], z3.Implies(z3.And(0 <= i, i < n, z3.Select(carr, i)), z3.And(0 <= ginv(i), ginv(i) < m, f(ginv(i)) == i))), check=False)
     eng.path.notes.append("filter-comprehension axioms at line %s" % node.lineno)
     return SV(ListOf(rs), r)
 
